@@ -25,10 +25,18 @@ def prepare():
     if not os.path.exists(f"{SCR}/harness/Cargo.lock"): shutil.copy("/repo/Cargo.lock", f"{SCR}/harness/Cargo.lock")
 
 def build(flavor):
-    cmd = "cargo build --release --offline" if flavor == "fast" else "cargo build --profile checked --offline"
-    r = sh(cmd, cwd=f"{SCR}/harness", env=ENV)
+    env = ENV
+    if flavor == "asan":
+        env = dict(ENV, RUSTFLAGS="-Zsanitizer=address -Cforce-frame-pointers=yes", CARGO_TARGET_DIR=f"{SCR}/harness/target-asan")
+        cmd = "cargo +nightly build --release --offline --target x86_64-unknown-linux-gnu"
+    else:
+        cmd = "cargo build --release --offline" if flavor == "fast" else "cargo build --profile checked --offline"
+    r = sh(cmd, cwd=f"{SCR}/harness", env=env)
     if r.returncode != 0:
         print(r.stdout[-3000:]); return None
+    if flavor == "asan":
+        os.environ["ASAN_OPTIONS"] = "halt_on_error=1:abort_on_error=0:detect_leaks=0:exitcode=77:allocator_may_return_null=1"
+        return f"{SCR}/harness/target-asan/x86_64-unknown-linux-gnu/release/rmv"
     return f"{SCR}/harness/target/{'release' if flavor == 'fast' else 'checked'}/rmv"
 
 def run(exe, prop, lane, secs, shards, extra):
@@ -72,6 +80,8 @@ def main():
             if s.count(old) < 1: print(f"{name}: pattern not found in {f}: {old!r}"); ok = False; break
             s = s.replace(old, new, 1) if not m.get("all") else s.replace(old, new)
             open(p, "w").write(s)
+        for (f, old, new) in m.get("sed", []):
+            p = f"{SCR}/repo/{f}"; s = open(p).read(); open(p, "w").write(s.replace(old, new))
         if not ok: continue
         t = time.time(); exe = build(flavor)
         if not exe: print(f"{name}: DOES NOT BUILD"); continue
